@@ -1,7 +1,7 @@
 (* C12 - tracks are independent; TrackSync aligns them.
    Statements only; every proof is `exact <lemma>` (proofs/TrackIndepP.v).
-   PLAY is outside the modelled fragment (the core lexer model answers Unsupported for it): there is no
-   theorem about PLAY here; its law is checked on the implementation by the oracle of tools/props/c12.py.
+   PLAY with literal parts is in the pipeline model (RunCore.exec_play) and takes part in the correspondence; there is
+   no theorem about PLAY here: its law is checked on the implementation by the oracle of tools/props/c12.py.
 
      dtrk               the default element of `nth` on track lists
      cur_ok s           the current track exists
